@@ -9,6 +9,9 @@ WT, BD = "/tmp/seedrun_wt", "/tmp/seedrun_build"
 def sh(c, **kw):
     p = subprocess.run(c, shell=True, stdout=subprocess.PIPE, stderr=subprocess.STDOUT, **kw)
     return p.returncode, p.stdout.decode("utf-8", "replace")
+import fcntl
+_lock = open("/tmp/seedrun.lock", "w")
+fcntl.flock(_lock, fcntl.LOCK_EX)      # one seed run at a time: the scratch worktree and build dir are shared
 sel = sys.argv[1:]
 seeds = sorted(d for d in os.listdir(os.path.join(ROOT, "seeded")) if os.path.exists(os.path.join(ROOT, "seeded", d, "patch.diff")))
 if sel:
@@ -36,3 +39,18 @@ try:
 finally:
     sh("git -C /repo worktree remove --force " + WT)
 print(json.dumps({k: v.split(" ")[0] for k, v in results.items()}, indent=1))
+# persistent record (merged by seed) used by DESIGN.md section 9
+rf = os.path.join(ROOT, "seeded", "RESULTS.json")
+try:
+    allr = json.load(open(rf))
+except Exception:
+    allr = {}
+head = sh("git -C /repo log --format=%h -1")[1].strip()
+for k, v in results.items():
+    st = v.split(" ")[0]
+    det = []
+    if st in ("CAUGHT", "MISSED"):
+        for (p, rc, n, secs, first) in json.loads(v.split(" ", 1)[1]):
+            det.append({"check": p, "exit": rc, "violations": n, "first": (first[0] if first else "")})
+    allr[k] = {"status": st, "repo_head": head, "verif_head": sh("git -C %s log --format=%%h -1" % ROOT)[1].strip(), "detail": det}
+json.dump(allr, open(rf, "w"), indent=1, sort_keys=True)
